@@ -119,7 +119,12 @@ fn cfg_sections(rng: &mut Rng, e: &Engine) -> Vec<CfgSection> {
     if mask & 1 != 0 {
         v.push(CfgSection::Fee { rate: *rng.pick(&[0u128, 1, 500, 10000, 50000, 100000, 100001, 300000]), treasury: rng.chance(1, 2) });
     }
-    if mask & 2 != 0 {
+    let limit = u64::MAX / 1_000_000_000; // largest deadline representable as a Timestamp
+    let now = e.w.now_s();
+    let edge = *rng.pick(&[limit - now, limit - now + 1, limit - now - 1, limit, limit - now / 2]);
+    if mask & 2 != 0 && rng.chance(1, 6) {
+        v.push(CfgSection::BatchPeriod(edge));
+    } else if mask & 2 != 0 {
         v.push(CfgSection::BatchPeriod(*rng.pick(&[1u64, 60, 60, 3600, 3600, 86_400, 86_400, 30 * 86_400, 30 * 86_400, u64::MAX, u64::MAX / 2 + 7])));
     }
     if mask & 4 != 0 {
@@ -128,7 +133,8 @@ fn cfg_sections(rng: &mut Rng, e: &Engine) -> Vec<CfgSection> {
     }
     if mask & 8 != 0 {
         let n = rng.below(4);
-        v.push(CfgSection::Native { unbonding: *rng.pick(&[1u64, 120, 120, 86_400, 86_400, 21 * 86_400, 21 * 86_400, u64::MAX, u64::MAX - 1_000_000]), validators: (0..n).map(|_| rng.below(5) as u8).collect(), staker: rng.below(3) as u8, collector: rng.below(3) as u8 });
+        let unb = if rng.chance(1, 6) { edge } else { *rng.pick(&[1u64, 120, 120, 86_400, 86_400, 21 * 86_400, 21 * 86_400, u64::MAX, u64::MAX - 1_000_000]) };
+        v.push(CfgSection::Native { unbonding: unb, validators: (0..n).map(|_| rng.below(5) as u8).collect(), staker: rng.below(3) as u8, collector: rng.below(3) as u8 });
     }
     if mask & 16 != 0 {
         v.push(CfgSection::Protocol { min_stake: *rng.pick(&[0u128, 1, 100, 1_000_000]), oracle: rng.chance(85, 100), channel: if rng.chance(1, 3) { rng.below(5000) } else { e.sw.channel }, spell: rng.below(4) as u8 });
